@@ -1,6 +1,7 @@
 package vc
 
 import (
+	"sync"
 	"encoding/json"
 	"flag"
 	"fmt"
@@ -51,6 +52,8 @@ func cmdVerify(args []string) int {
 	verbose := fs.Bool("v", false, "verbose")
 	dirFlag := fs.String("dir", "", "load this directory (a rendered fixture) instead of -repo/-pkgs")
 	only := fs.String("only", "", "only solve obligations whose name contains this substring")
+	dumpAll := fs.String("dumpall", "", "write the query of every obligation into this directory and stop")
+	stress := fs.Int("stress", 0, "run every obligation with this many random seeds on each solver and report the fragile ones")
 	fs.Parse(args)
 	loadDir, loadPkgs := *repo, strings.Split(*pkgs, ",")
 	if *dirFlag != "" {
@@ -115,6 +118,17 @@ func cmdVerify(args []string) int {
 			r.Obls = keep
 		}
 	}
+	if *dumpAll != "" {
+		for _, r := range results {
+			for _, o := range r.Obls {
+				o.DumpQuery(*dumpAll)
+			}
+		}
+		return 0
+	}
+	if *stress > 0 {
+		return stressRun(v, results, *stress)
+	}
 	v.Discharge(results, 8)
 	bad := 0
 	for _, r := range results {
@@ -177,5 +191,83 @@ func cmdReplay(path string) int {
 	if lbl, _ := m["label"].(string); lbl == "bounded" {
 		fmt.Printf("bounded witness: re-run ./check %v quick to execute the input against the current tree\n", m["property"])
 	}
+	return 0
+}
+
+// stressRun: every non-vacuity obligation is solved with seeds 1..n by each back end on
+// its own. An obligation is "fragile" when for some seed no back end proves it (the race
+// could lose it), "thin" when a single back end carries it for every seed.
+func stressRun(v *Verifier, results []*FuncResult, n int) int {
+	type job struct {
+		o    *Obligation
+		seed int
+		be   string
+	}
+	var obls []*Obligation
+	for _, r := range results {
+		for _, o := range r.Obls {
+			if o.Kind != "vacuity" && o.Goal != "true" && o.Reach != "false" {
+				obls = append(obls, o)
+			}
+		}
+	}
+	bes := []string{"z3-5.1.0", "z3-4.8.12", "cvc5-1.0.3"}
+	ok := map[*Obligation]map[int]map[string]bool{}
+	var mu sync.Mutex
+	ch := make(chan job)
+	var wg sync.WaitGroup
+	for w := 0; w < 14; w++ {
+		wg.Add(1)
+		go func() {
+			defer wg.Done()
+			for j := range ch {
+				res := v.Solver.CheckSeed(j.o.Name, j.o.Query(), false, v.Solver.Timeout, j.seed, j.be)
+				mu.Lock()
+				if ok[j.o] == nil {
+					ok[j.o] = map[int]map[string]bool{}
+				}
+				if ok[j.o][j.seed] == nil {
+					ok[j.o][j.seed] = map[string]bool{}
+				}
+				ok[j.o][j.seed][j.be] = res.Status == "unsat"
+				mu.Unlock()
+			}
+		}()
+	}
+	for _, o := range obls {
+		for seed := 1; seed <= n; seed++ {
+			for _, be := range bes {
+				ch <- job{o, seed, be}
+			}
+		}
+	}
+	close(ch)
+	wg.Wait()
+	fragile, thin := 0, 0
+	for _, o := range obls {
+		worst := len(bes)
+		per := map[string]int{}
+		for seed := 1; seed <= n; seed++ {
+			c := 0
+			for _, be := range bes {
+				if ok[o][seed][be] {
+					c++
+					per[be]++
+				}
+			}
+			if c < worst {
+				worst = c
+			}
+		}
+		switch {
+		case worst == 0:
+			fragile++
+			fmt.Printf("FRAGILE %s: some seed leaves no back end with a proof (proofs per back end over %d seeds: %v)\n", o.Name, n, per)
+		case worst == 1:
+			thin++
+			fmt.Printf("THIN    %s: a single back end carries it for some seed (%v)\n", o.Name, per)
+		}
+	}
+	fmt.Printf("stress: %d obligations x %d seeds x %d back ends: %d fragile, %d thin\n", len(obls), n, len(bes), fragile, thin)
 	return 0
 }
